@@ -22,10 +22,12 @@ OBLIGATIONS = [
              "their key and delivered, whatever the positions of the forged ones; no exception"),
     chx("batch_malformed", "C34_h", "h_batch_malformed",
         cases={"quick": [{"kinds": [0, 1, 2], "_label": "unsigned_or_sigprefix"}, {"kinds": [0, 3, 4], "_label": "bad_key"},
-                         {"kinds": [0, 5], "_label": "bad_body"}],
+                         {"kinds": [0, 5], "_label": "bad_body"}, {"kinds": [0, 6, 8], "_label": "unsigned_or_short"},
+                         {"kinds": [0, 7, 10], "_label": "strkey_or_nottuple"}, {"kinds": [0, 9], "_label": "intkey"}],
                "thorough": [{"_label": "all"}]},
         timeout={"quick": 120, "thorough": 900},
-        desc="same batch where each position may also be a malformed encoding (no signature, non-v0 signature or key prefix, undecodable key, signed non-JSON body) "
+        desc="same batch where each position may also be a malformed encoding (no signature, non-v0 signature or key prefix, undecodable key, signed non-JSON body, "
+             "unsigned (msg, None, None), text or integer key, tuple shorter than 3, not a tuple) "
              "run through the real unsign_from_foolscap: every good announcement in the batch is still stored and delivered; bad ones never are"),
     chx("server_publish", "C34_h", "h_server_publish", timeout={"quick": 120, "thorough": 600},
         desc="IntroducerService._publish (server side of the same rule), one step: relayed/stored iff signature valid and fresh by the same seqnum rule; "
